@@ -90,7 +90,13 @@ def gen_mutation(r, text, stmts_info=None, classes=None):
         return {"kind": "truncate", "at": r.randrange(0, max(1, len(text.encode("utf-8", "surrogateescape"))))}
     # byte level
     n = max(1, len(text.encode("utf-8", "surrogateescape")))
-    op = r.choice(["flip", "drop", "dup", "insert", "insert", "insert"])
+    op = r.choice(["flip", "drop", "dup", "insert", "insert", "insert", "tail"])
+    if op == "tail":
+        # undecodable bytes as the very last bytes of the file (e.g. a file cut inside a
+        # multi-byte character), with or without a final newline before them
+        return {"kind": "byte_insert", "at": n if r.random() < 0.7 else max(0, n - 1),
+                "bytes": r.choice([[0xC3], [0xE2, 0x82], [0xF0, 0x9F, 0x98], [0xFF],
+                                   [0x80, 0x80], [0xC3, 0x28]])}
     m = {"kind": "byte_" + op, "at": r.randrange(n)}
     if op == "flip":
         m["bit"] = r.randrange(8)
@@ -105,7 +111,8 @@ def apply_mutation(data, m):
     """data: bytes -> bytes."""
     kind = m["kind"]
     if kind.startswith("byte_") or kind == "truncate":
-        at = min(m["at"], max(0, len(data) - 1)) if data else 0
+        at = min(m["at"], len(data) if kind == "byte_insert" else max(0, len(data) - 1)) \
+            if data else 0
         if kind == "truncate":
             return data[: m["at"]]
         if not data:
